@@ -543,7 +543,7 @@ Proof.
   all: try (apply inv2_server_close; assumption).
   all: try (apply inv2_connect; assumption).
   all: try (apply inv2_accept; [assumption| |assumption];
-            match goal with Hb : _ && is_none (busy s) = true |- _ => apply andb_prop in Hb; tauto end).
+            match goal with Hb : _ && is_none (busy _) = true |- _ => apply andb_prop in Hb; tauto end).
   all: try (apply inv2_authing_ends; assumption).
   all: try (apply inv2_authd; assumption).
   all: try (apply inv2_finish_own;
@@ -556,4 +556,91 @@ Proof.
             simp_state; reflexivity).
 Qed.
 
+
+(* ---- the thread pool: every registered descriptor is in exactly one place ---- *)
+Definition cnt (x : cid) (l : list cid) : nat := count_occ Nat.eq_dec l x.
+Definition slot_cids (w : option (cid * nat)) : list cid := match w with Some (c, _) => [c] | None => [] end.
+Definition held (s : st) : list cid := flat_map slot_cids (workers s).
+
+Lemma cnt_app x a b : cnt x (a ++ b) = cnt x a + cnt x b.
+Proof. apply count_occ_app. Qed.
+Lemma cnt_one x y : cnt x [y] = if Nat.eqb x y then 1 else 0.
+Proof.
+  unfold cnt. cbn. destruct (Nat.eq_dec y x) as [->|N]; [now rewrite Nat.eqb_refl|].
+  destruct (Nat.eqb x y) eqn:E; [apply Nat.eqb_eq in E; congruence|reflexivity].
+Qed.
+Lemma cnt_cons x y l : cnt x (y :: l) = (if Nat.eqb x y then 1 else 0) + cnt x l.
+Proof. change (y :: l) with ([y] ++ l). now rewrite cnt_app, cnt_one. Qed.
+Lemma cnt_rm x d l : cnt x (rm d l) = if Nat.eqb x d then 0 else cnt x l.
+Proof.
+  induction l as [|y l IH]; [now destruct (Nat.eqb x d)|].
+  change (rm d (y :: l)) with (if negb (Nat.eqb y d) then y :: rm d l else rm d l).
+  rewrite cnt_cons. destruct (Nat.eqb y d) eqn:E; cbn [negb].
+  - rewrite IH. apply Nat.eqb_eq in E. subst. destruct (Nat.eqb x d); reflexivity.
+  - rewrite cnt_cons, IH. destruct (Nat.eqb x d) eqn:F; [|reflexivity].
+    apply Nat.eqb_eq in F. subst. now rewrite Nat.eqb_sym, E.
+Qed.
+Lemma cnt_pos_mem x l : mem x l = true <-> cnt x l > 0.
+Proof. rewrite mem_In. apply count_occ_In. Qed.
+Lemma cnt_zero_mem x l : mem x l = false <-> cnt x l = 0.
+Proof.
+  split; intros H.
+  - destruct (cnt x l) eqn:E; [reflexivity|]. assert (G : cnt x l > 0) by lia. apply cnt_pos_mem in G. congruence.
+  - destruct (mem x l) eqn:E; [|reflexivity]. apply cnt_pos_mem in E. lia.
+Qed.
+
+Definition slot_cnt (x : cid) (w : option (cid * nat)) : nat := cnt x (slot_cids w).
+Lemma held_set_nth x ws w old v :
+  nth_error ws w = Some old -> cnt x (flat_map slot_cids (set_nth w v ws)) + slot_cnt x old = cnt x (flat_map slot_cids ws) + slot_cnt x v.
+Proof.
+  revert w. induction ws as [|y ws IH]; intros [|w] H; cbn in H; try discriminate.
+  - inversion H; subst. cbn [set_nth flat_map]. rewrite !cnt_app. unfold slot_cnt. lia.
+  - cbn [set_nth flat_map]. rewrite !cnt_app. specialize (IH w H). lia.
+Qed.
+
+Definition Inv3 (s : st) : Prop :=
+  active s = true -> forall x, cnt x (pollset s) + cnt x (queue s) + cnt x (held s) = if mem x (fdmap s) then 1 else 0.
+
+Lemma inv3_init : Inv3 (init K).
+Proof.
+  intros _ x. unfold held. cbn. destruct (kind K); cbn; try reflexivity.
+  induction (nworkers K); cbn; auto.
+Qed.
+
+Lemma inv3_tables s s' :
+  active s' = active s -> fdmap s' = fdmap s -> pollset s' = pollset s -> queue s' = queue s -> workers s' = workers s -> Inv3 s -> Inv3 s'.
+Proof. intros e1 e2 e3 e4 e5 H. unfold Inv3, held. rewrite e1, e2, e3, e4, e5. exact H. Qed.
+Lemma inv3_server_close s : Inv3 s -> Inv3 (server_close K s).
+Proof.
+  intros H. unfold server_close. destruct (closed s); [exact H|]. intros A. discriminate A.
+Qed.
+Lemma inv3_finish_own s c : Inv3 s -> Inv3 (finish_own K c s).
+Proof.
+  intros H. rewrite finish_own_eq.
+  assert (H1 : Inv3 (fo_core c s)) by (eapply inv3_tables; [..|exact H]; reflexivity).
+  destruct (kind K); try exact H1. apply inv3_server_close. eapply inv3_tables; [..|exact H1]; reflexivity.
+Qed.
+Lemma inv3_serve_on s c q rest : Inv3 s -> Inv3 (serve_on K s c q rest).
+Proof. apply inv3_tables; simp_state; reflexivity. Qed.
+Lemma inv3_drop_free s c : Inv3 s -> (active s = true -> cnt c (pollset s) + cnt c (queue s) + cnt c (held s) = 0) -> Inv3 (drop c s).
+Proof.
+  intros H Hz. rewrite drop_eq. destruct (mem c (fdmap s)) eqn:M; [|exact H].
+  intros A x. unfold held. simp_state. specialize (H A x). rewrite mem_rm.
+  destruct (Nat.eqb x c) eqn:E; cbn [negb andb]; [|exact H].
+  apply Nat.eqb_eq in E. subst. apply Hz, A.
+Qed.
+Lemma inv3_accept s c rest : backlog s = c :: rest -> Inv2 s -> Inv3 s -> Inv3 (accept K c rest s).
+Proof.
+  intros Hb [H2 _] H. unfold accept.
+  assert (Mf : mem c (fdmap s) = false).
+  { specialize (H2 c). unfold conn_ok in H2. rewrite Hb in H2. destruct (mem c (fdmap s)); [|reflexivity].
+    assert (stg (conns s c) = Backlog) by (cbn in H2; tauto). assert (stg (conns s c) = Pooled) by tauto. congruence. }
+  assert (P1 : Inv3 (pool_register c (with_backlog (with_accepted (with_clients (set_conn s c (k_stage (conns s c) Own)) (clients s ++ [c])) (accepted s ++ [c])) rest))).
+  { intros A x. unfold held. simp_state. specialize (H A x). unfold held in H. rewrite cnt_app, mem_app, mem_one, cnt_one.
+    destruct (Nat.eqb x c) eqn:E; [|rewrite orb_false_r; lia].
+    apply Nat.eqb_eq in E. subst. rewrite Mf in *. cbn. lia. }
+  destruct (kind K); try (eapply inv3_tables; [..|exact H]; reflexivity).
+  - destruct (has_auth K); [|exact P1]. destruct (abeh (conns s c)); [exact P1| |]; (eapply inv3_tables; [..|exact H]; reflexivity).
+  - destruct (fork_parent_keeps (fx K)); (eapply inv3_tables; [..|exact H]; reflexivity).
+Qed.
 End P.
